@@ -28,7 +28,8 @@ def _one(args):
         keys = [l.strip()[4:] for l in p.stdout.splitlines() if l.strip().startswith('key=')]
         rules = sorted({k.split(':')[0] for k in keys})
         return {'seed': name, 'status': 'detected' if p.returncode == 1 else ('silent' if p.returncode == 0 else 'check-error'),
-                'rules': rules, 'expected_missed': bool(meta.get('missed')), 'keys': keys[:4]}
+                'rules': rules, 'expected_missed': bool(meta.get('missed')), 'keys': keys[:4],
+                'negative': meta.get('property') == 'all'}
     finally:
         shutil.rmtree(tmp, ignore_errors=True)
         import hashlib
@@ -47,6 +48,8 @@ def run_corpus(pid, workers=6):
         det = meta.get('detected_by', [])
         if meta.get('property') == pid or any(x.startswith(pid) for x in det):
             seeds.append(d)
+        elif meta.get('property') == 'all':
+            seeds.append(d)      # behaviour-preserving refactor: the check must stay silent
     jobs = [(d, pid, i % workers) for i, d in enumerate(seeds)]
     # workers with the same index share a target dir: run them in `workers` lanes
     lanes = {}
@@ -59,7 +62,11 @@ def run_corpus(pid, workers=6):
     with ThreadPoolExecutor(max_workers=workers) as ex:
         for rs in ex.map(lane, lanes.values()):
             results.extend(rs)
-    out = {'seeds': len(seeds),
+    neg = [r for r in results if r.get('negative')]
+    results = [r for r in results if not r.get('negative')]
+    out = {'seeds': len(results),
+           'refactors_silent': sorted(r['seed'] for r in neg if r['status'] == 'silent'),
+           'refactors_FALSE_ALARM': sorted(r['seed'] for r in neg if r['status'] not in ('silent', 'patch-does-not-apply')),
            'detected': sorted(r['seed'] for r in results if r['status'] == 'detected'),
            'silent_expected': sorted(r['seed'] for r in results if r['status'] == 'silent' and r.get('expected_missed')),
            'silent_unexpected': sorted(r['seed'] for r in results if r['status'] == 'silent' and not r.get('expected_missed')),
@@ -76,7 +83,7 @@ if __name__ == '__main__':
     for pid in pids:
         rep[pid] = run_corpus(pid)
         r = rep[pid]
-        print('%s: %d seeds, %d detected, %d silent(expected), %d SILENT-UNEXPECTED %s, %d n/a %s' % (
+        print('%s: %d seeds, %d detected, %d silent(expected), %d SILENT-UNEXPECTED %s, %d n/a %s; refactors silent %d, FALSE ALARMS %s' % (
             pid, r['seeds'], len(r['detected']), len(r['silent_expected']), len(r['silent_unexpected']), r['silent_unexpected'],
-            len(r['not_applicable']), r['not_applicable']))
+            len(r['not_applicable']), r['not_applicable'], len(r['refactors_silent']), r['refactors_FALSE_ALARM']))
     json.dump(rep, open(os.path.join(VERIF, 'seeded', 'REPORT.json'), 'w'), indent=1)
